@@ -11,12 +11,14 @@ From SimRes Require Import ResModel.
 Import ListNotations.
 Local Open Scope Z_scope.
 
-(** the facts the theorems are proved for (= the regenerated facts, by C10_facts_pinned) *)
-Definition expected_facts : res_facts := mkResFacts NRFixed true true true true true true true.
+(** the facts the theorems are proved for (= the regenerated facts, by C10_facts_pinned), for either
+    shape [pk] of get_producers / get_consumers *)
+Definition expected_facts (pk : prod_kind) : res_facts := mkResFacts NRFixed true true true pk true true true.
 
 Section Spec.
+  Variable pk : prod_kind.
   Variable fsem : fnid -> list Z -> Z.
-  Notation FX := expected_facts.
+  Notation FX := (expected_facts pk).
 
   Definition canon_tables (m : model) (r : simres) : res (list (frame Z)) :=
     map_res (fun sp => args_table fsem m (snd sp) (fst sp)) (combine (r_segs r) (r_pars r)).
@@ -86,7 +88,8 @@ Section Spec.
   Definition signed_names (neg : bool) (sto : list (name * Z)) : list name :=
     map fst (filter (fun kv => if neg then snd kv <? 0 else 0 <? snd kv) sto).
 
-  Definition spec_prodcons (m : model) (r : simres) (pn : list name) (neg : bool) (v : name)
+  (** the snapshot's rule ([PKFirst]) *)
+  Definition spec_prodcons_first (m : model) (r : simres) (pn : list name) (neg : bool) (v : name)
              (scaled : bool) (n : norm) (conc : bool) : out :=
     match r_pars r with
     | [] => VErr EIndex
@@ -109,6 +112,44 @@ Section Spec.
             | _ => VErr EValue
             end
         end
+    end.
+
+  (** the property's rule ([PKRows], the repaired code): from the REPORTED tables only.
+      Column [rn] (a reaction that mentions [v], declaration order) is listed iff its coefficient
+      [N[v, rn](row) = coef_val (row_env tb row) c] has the sign in SOME reported row of the result;
+      the cell at (row, rn) is the reported (normalised) flux -- times |N[v, rn](row)| when [scaled]
+      -- iff the coefficient has the sign in THAT row, and NaN ([None]) otherwise ([mask_cell]). *)
+  Definition spec_prodcons_rows (m : model) (r : simres) (pn : list name) (neg : bool) (v : name)
+             (scaled : bool) (n : norm) (conc : bool) : out :=
+    match factors_of m v with
+    | [] => VErr EKey
+    | fs =>
+        match canon_tables m r with
+        | Err e => VErr e
+        | Ok tbs =>
+            match map_res (coef_rows fsem neg fs) tbs with
+            | Err e => VErr e
+            | Ok coefs =>
+                match spec_selected m r pn (flags_fluxes true) n false with
+                | VFrames fl =>
+                    match mask_all scaled (kept fs coefs) fl coefs with
+                    | Err e => VErr e
+                    | Ok ml => if conc then match mconcat0 ml with Ok f => VMFrame f | Err e => VErr e end
+                               else VMFrames ml
+                    end
+                | VErr e => VErr e
+                | _ => VErr EValue
+                end
+            end
+        end
+    end.
+
+  Definition spec_prodcons (m : model) (r : simres) (pn : list name) (neg : bool) (v : name)
+             (scaled : bool) (n : norm) (conc : bool) : out :=
+    match pk with
+    | PKFirst => spec_prodcons_first m r pn neg v scaled n conc
+    | PKRows => spec_prodcons_rows m r pn neg v scaled n conc
+    | PKUnknown => VOther
     end.
 
   Definition spec_op (m : model) (r : simres) (pn : list name) (o : op) : out :=
